@@ -1,5 +1,5 @@
 (* Driver of the extracted manifest-reader model (coq/Manifest, property C12).
-   Usage: manifest_run model|spec [include-fuel]
+   Usage: manifest_run model|spec|facts [include-fuel]
    stdin : one scenario per line, the input format of `impl_run manifest`
            <root-name-hex> <n> <name1-hex> <content1-hex> ...   ("-" = empty)
    stdout: one line per scenario in the format documented in harness/run_manifest.cc;
@@ -111,9 +111,98 @@ let manifest_line_with evalf (include_fuel : int) (l : string) : string =
 let manifest_line = manifest_line_with eval_manifest
 let manifest_spec_line = manifest_line_with spec_manifest
 
+(* component "facts": structural facts about a scenario for the classifiers of tools/props/c12.py.
+   The files are parsed with the reference's own syntactic pass (parse_file) and walked in
+   execution order with the reference's immutable environments (paths evaluated with
+   lookup_frames/eval_es/canon); semantic errors are ignored, the walk stops at the first file
+   that does not parse or does not exist.  One line per scenario, records separated by " ; ":
+     N <scope> <parent>                         subninja opened scope <scope> (root scope = 0)
+     E <scope> <file>                           the statements of <file> start (in scope <scope>)
+     C <scope> <file> <line>                    the statement at <file>:<line> contains a "$^" escape
+     L <scope> <file> <line> <name> <value>     file-level binding
+     R <scope> <file> <line> <name> <nb> {<key> <nrefs> <ref>*}*   rule with its bindings (declaration
+                                                order) and the variables each right-hand side mentions
+     B <scope> <file> <line> <rule> K <n> <key>* O <n> <p>* IO .. I .. IM .. OO .. V ..
+                                                build statement: block keys, evaluated canonical paths
+     X <file> <line>                            walk stopped (file missing / not parsing / depth) *)
+let facts_line (include_fuel : int) (l : string) : string =
+  match split_ws l with
+  | root :: _n :: rest ->
+    let fm = manifest_file_map rest in
+    let b = Buffer.create 1024 in
+    let nscope = ref 0 in
+    let nl = n_of_int 10 in
+    let add s = Buffer.add_string b s in
+    let plist tag look l =
+      add (Printf.sprintf " %s %d" tag (List.length l));
+      List.iter (fun es -> let p = eval_es look es in
+                  add (" " ^ hex_of_bytes (if p = [] then [] else canon p))) l in
+    let exception Stop in
+    let rec walk depth parent pline file (env : senv) (sc : int) : senv =
+      if depth <= 0 then (add (Printf.sprintf " ; X %s %d" (hex_of_bytes parent) pline); raise Stop) else
+      match fm file with
+      | None -> add (Printf.sprintf " ; X %s %d" (hex_of_bytes parent) pline); raise Stop
+      | Some contents ->
+        (match parse_file file contents with
+         | P_err (f, ln, _) -> add (Printf.sprintf " ; X %s %d" (hex_of_bytes f) (int_of_nat ln)); raise Stop
+         | P_ok stmts ->
+           add (Printf.sprintf " ; E %d %s" sc (hex_of_bytes file));
+           List.fold_left (fun env st ->
+               let look = lookup_frames (senv_frames env) in
+               let caret es = List.exists (function ET_raw t -> List.mem nl t | ET_special _ -> false) es in
+               let cb bl = List.exists (fun (_, es) -> caret es) bl in
+               let (ln, has_caret) = match st with
+                 | S_let (l, _, v) -> (l, caret v)
+                 | S_rule (l, _, bl) | S_pool (l, _, bl) -> (l, cb bl)
+                 | S_build (l, a, b, _, c, d, e, f, bl) -> (l, List.exists caret (a @ b @ c @ d @ e @ f) || cb bl)
+                 | S_default (l, ts) -> (l, List.exists caret ts)
+                 | S_include (l, _, p) -> (l, caret p) in
+               if has_caret then add (Printf.sprintf " ; C %d %s %d" sc (hex_of_bytes file) (int_of_nat ln));
+               match st with
+               | S_let (line, name, v) ->
+                 let value = eval_es look v in
+                 add (Printf.sprintf " ; L %d %s %d %s %s" sc (hex_of_bytes file) (int_of_nat line)
+                        (hex_of_bytes name) (hex_of_bytes value));
+                 senv_bind env name value
+               | S_rule (line, name, bl) ->
+                 add (Printf.sprintf " ; R %d %s %d %s %d" sc (hex_of_bytes file) (int_of_nat line)
+                        (hex_of_bytes name) (List.length bl));
+                 List.iter (fun (k, es) ->
+                     let refs = List.filter_map (function ET_special v -> Some v | ET_raw _ -> None) es in
+                     add (Printf.sprintf " %s %d" (hex_of_bytes k) (List.length refs));
+                     List.iter (fun r -> add (" " ^ hex_of_bytes r)) refs) bl;
+                 env
+               | S_pool _ | S_default _ -> env
+               | S_build (line, outs, iouts, rule, ins, imps, oos, vals, bl) ->
+                 let file_fr = senv_frames env in
+                 let block = eval_block file_fr bl [] in
+                 let plook = lookup_frames (block :: file_fr) in
+                 add (Printf.sprintf " ; B %d %s %d %s K %d" sc (hex_of_bytes file) (int_of_nat line)
+                        (hex_of_bytes rule) (List.length bl));
+                 List.iter (fun (k, _) -> add (" " ^ hex_of_bytes k)) bl;
+                 plist "O" plook outs; plist "IO" plook iouts; plist "I" plook ins;
+                 plist "IM" plook imps; plist "OO" plook oos; plist "V" plook vals;
+                 env
+               | S_include (line, new_scope, p) ->
+                 let path = eval_es look p in
+                 if new_scope then begin
+                   incr nscope;
+                   let child = !nscope in
+                   add (Printf.sprintf " ; N %d %d" child sc);
+                   ignore (walk (depth - 1) file (int_of_nat line) path
+                             ({ f_vars = []; f_rules = [] } :: env) child);
+                   env
+                 end else walk (depth - 1) file (int_of_nat line) path env sc)
+             env stmts) in
+    (try ignore (walk include_fuel [] 0 (bytes_of_hex root) [ { f_vars = []; f_rules = [] } ] 0)
+     with Stop -> ());
+    "F" ^ Buffer.contents b
+  | _ -> "BADLINE"
+
 let () =
   let fuel = if Array.length Sys.argv > 2 then int_of_string Sys.argv.(2) else 8 in
   match (if Array.length Sys.argv > 1 then Sys.argv.(1) else "") with
   | "model" | "manifest" -> each_line (manifest_line fuel)
   | "spec" | "manifest_spec" -> each_line (manifest_spec_line fuel)
-  | _ -> prerr_endline "usage: manifest_run model|spec [include-fuel]"; exit 2
+  | "facts" -> each_line (facts_line fuel)
+  | _ -> prerr_endline "usage: manifest_run model|spec|facts [include-fuel]"; exit 2
